@@ -262,14 +262,27 @@ impl PackHeader {
         size_hint: Option<u32>,
         pack_size: u32,
     ) -> RusticResult<Self> {
+        // the pack must at least hold the length field; `max_header` is the largest header which fits into the pack
+        let max_header = pack_size
+            .checked_sub(constants::LENGTH_LEN)
+            .ok_or_else(|| {
+                RusticError::new(
+                    ErrorKind::Internal,
+                    "Pack size `{pack_size}` is too small to contain a header length field of `{length}` bytes!",
+                )
+                .attach_context("pack_size", pack_size.to_string())
+                .attach_context("length", constants::LENGTH_LEN.to_string())
+            })?;
+
         // guess the header size from size_hint and pack_size
         // If the guess is too small, we have to re-read. If the guess is too large, we have to have read too much
         // but this should normally not matter too much. So we try to overguess here...
-        let size_guess = size_hint.unwrap_or(0);
+        // We never guess more than the pack can hold.
+        let size_guess = size_hint.unwrap_or(0).min(max_header);
 
         // read (guessed) header + length field
         let read_size = size_guess + constants::LENGTH_LEN;
-        let offset = pack_size - read_size;
+        let offset = max_header - size_guess;
         let mut data = be.read_partial(FileType::Pack, &id, false, offset, read_size)?;
 
         // get header length from the file
@@ -284,7 +297,7 @@ impl PackHeader {
             .to_u32();
         trace!("header size: {size_real}");
 
-        if size_real + constants::LENGTH_LEN > pack_size {
+        if size_real > max_header {
             return Err(RusticError::new(
                 ErrorKind::Internal,
                 "Read header length `{size_real}` + `{length}` is larger than `{pack_size}`!",
@@ -300,7 +313,7 @@ impl PackHeader {
             data.split_off((size_guess - size_real) as usize)
         } else {
             // size_guess was too small; we have to read again
-            let offset = pack_size - size_real - constants::LENGTH_LEN;
+            let offset = max_header - size_real;
             be.read_partial(FileType::Pack, &id, false, offset, size_real)?
         };
 
